@@ -410,21 +410,21 @@ qrnzcnt(int_t neqns, int_t adjlen, int_t *xadj, int_t *adjncy, int_t *zfdperm,
 
     /* Fix the supernode partition in H. */
     
-    free (set);
-    free (prvlf);
-    free (level);
-    free (weight);
-    free (fdesc);
-    free (nchild);
-    free (prvnbr);
-    free (fnz_hadj);
+    SUPERLU_FREE (set);
+    SUPERLU_FREE (prvlf);
+    SUPERLU_FREE (level);
+    SUPERLU_FREE (weight);
+    SUPERLU_FREE (fdesc);
+    SUPERLU_FREE (nchild);
+    SUPERLU_FREE (prvnbr);
+    SUPERLU_FREE (fnz_hadj);
 
-    free (first);
-    free (firstset);
-    free (weight_h);
-    free (rowcnt_h);
-    free (rowcnt);
-    free (colcnt);
+    SUPERLU_FREE (first);
+    SUPERLU_FREE (firstset);
+    SUPERLU_FREE (weight_h);
+    SUPERLU_FREE (rowcnt_h);
+    SUPERLU_FREE (rowcnt);
+    SUPERLU_FREE (colcnt);
     
 #if ( PRNTlevel==1 )
     printf(".. qrnzcnt() nlnz %d, nhnz %d, nlnz/nhnz %.2f\n", 
